@@ -264,8 +264,7 @@ def check_equity_sampling(repo, rep):
             calls = [e for e in evs if e[0] == "call" and e[1] == "save_daily_portfolio_balance"]
             g = [e for e in evs if e[0] == "guard" and e[1] == "daily"]
             taken = any(x[2] for x in g)
-            if g and len(calls) != (1 if taken else 0):
-                rep.violation(rid, f"{sim}|daily", f"{sim}: {len(calls)} equity samples in an iteration where the daily guard is {'true' if taken else 'false'}")
+            # (how many samples an iteration takes, and when, is decided by interpreting the loops: C16-R3b)
             if calls:
                 last_exec = max([i for i, e in enumerate(evs) if e[0] == "call" and e[1] in ("_execute", "execute_pending_market_orders")], default=-1)
                 if evs.index(calls[0]) < last_exec:
@@ -395,6 +394,9 @@ def check_equity_sample_times(repo, rep):
                 bad, kind = f"{len(samples)} samples inside the loop for {len(bounds)} completed days", "daily-count"
             else:
                 for b, t in zip(bounds, samples):
+                    if 1440 % step == 0 and t != b:
+                        bad, kind = f"the sample of the day ending at minute {b} is taken at minute {t}, not at the day boundary (the two simulators must sample at the same instant)", "daily-time"
+                        break
                     if t is None or not (b <= t < b + 1440):
                         bad = f"the sample of the day ending at minute {b} is taken at minute {t}"
                         # a step longer than a day cannot observe the equity at the day boundaries inside it
